@@ -5,6 +5,18 @@ FINDINGS = [
          site="cdd/shared/ast_utils.py:RewriteAtQuery.visit_FunctionDef (handles parameter replacement only; a whole FunctionDef at the searched location is never replaced). "
          "The obvious repair (replace the node when _location == search) makes four test_conformance tests fail, which pin the 'unchanged' outcome.",
          example="class file holds alpha: int = 5 (truth); meth.py holds C.method(self, zeta: int = 9) -> after sync --truth class, C.method still has zeta"),
+    dict(id="C12-parameter-without-concrete-default-drifts-between-formats", property="C12",
+         pattern=dict(check="sync", clause="target_equivalent_to_truth", field={"in": ["default", "typ"]}, default_kind={"in": ["ABSENT", "None"]}),
+         what="a truth parameter without a concrete default (no default, or None) does not reach the other formats unchanged: argparse invents the zero value / drops None, "
+         "a function truth turns 'no default' into None and the class target then gets Optional[...] - the per-format losses recorded under C02/C03 "
+         "(R-argparse-zero-default, R-argparse-none-default, R-none-default-wraps-optional), seen through sync",
+         site="cdd/argparse_function/utils/emit_utils.py:parse_out_param, cdd/shared/ast_utils.py:param2argparse_param, cdd/function/parse.py",
+         example="truth class with alpha: float (no default): after sync the argparse target parses back with default 0.0"),
+    dict(id="C12-argparse-truth-invents-zero-default", property="C12",
+         pattern=dict(check="sync", clause="target_equivalent_to_truth", truth="argparse_function", field="default", expected="float", observed="None", typ_class="float"),
+         what="same root cause with argparse as the truth: the truth's own parse already carries the invented 0.0, which the function target then shows as None",
+         site="cdd/argparse_function/utils/emit_utils.py:parse_out_param",
+         example="truth argparse add_argument('--alpha', type=float, required=True) -> gold default 0.0"),
 ]
 FIXED = [
     "fixed: property=C12 161087c with any top-level function before class C, 'C.method' was not found: sync appended another copy of the method to the file on every run (non-idempotent, code outside the target changed), and --truth function died with AssertionError",
